@@ -23,10 +23,10 @@ const c19MaxSize = int64(10) << 40 // 10 TiB
 
 // refGeometry is the reference arithmetic (math/big, no fixed-width overflow).
 type refGeometry struct {
-	size  int64
-	c     uint32
-	n     uint64 // number of chunks
-	fits  bool   // n fits the 32-bit wire field
+	size int64
+	c    uint32
+	n    uint64 // number of chunks
+	fits bool   // n fits the 32-bit wire field
 }
 
 func c19Ref(size int64, c uint32) refGeometry {
